@@ -171,6 +171,84 @@ func phiAlternatives(v ssa.Value) []ssa.Value {
 	return out
 }
 
+// valueAlts: phiAlternatives that also looks through extracted helpers of the same package:
+// a helper's parameter stands for what its call sites pass, and a result extracted from a
+// call of a same-package helper stands for what that helper returns.
+func (p *Prog) valueAlts(v ssa.Value) []ssa.Value {
+	var out []ssa.Value
+	seen := map[ssa.Value]bool{}
+	var rec func(v ssa.Value, d int)
+	rec = func(v ssa.Value, d int) {
+		if v == nil || seen[v] {
+			return
+		}
+		seen[v] = true
+		if d < 8 {
+			switch x := v.(type) {
+			case *ssa.Phi:
+				for _, e := range x.Edges {
+					rec(e, d+1)
+				}
+				return
+			case *ssa.Parameter:
+				if f := x.Parent(); f != nil && isComdexFn(f) {
+					sites := p.CallSitesOf(f)
+					idx := paramIndex(x)
+					if len(sites) > 0 && idx >= 0 {
+						okAll := true
+						for _, cs := range sites {
+							if cs.Parent() == nil || cs.Parent().Pkg != f.Pkg || idx >= len(cs.Common().Args) {
+								okAll = false
+							}
+						}
+						if okAll {
+							for _, cs := range sites {
+								rec(cs.Common().Args[idx], d+1)
+							}
+							return
+						}
+					}
+				}
+			case *ssa.Extract:
+				if c, ok := x.Tuple.(*ssa.Call); ok {
+					if sc := c.Call.StaticCallee(); sc != nil && isComdexFn(sc) && len(sc.Blocks) > 0 && c.Parent() != nil && sc.Pkg == c.Parent().Pkg {
+						n := 0
+						for _, rt := range returns(sc) {
+							if x.Index < len(rt.Results) {
+								rec(rt.Results[x.Index], d+1)
+								n++
+							}
+						}
+						if n > 0 {
+							return
+						}
+					}
+				}
+			}
+		}
+		out = append(out, v)
+	}
+	rec(v, 0)
+	return out
+}
+
+// withSamePkgHelpers: fn and the helpers of its own package it calls (two levels).
+func (p *Prog) withSamePkgHelpers(fn *ssa.Function) []*ssa.Function {
+	out := []*ssa.Function{fn}
+	seen := map[*ssa.Function]bool{fn: true}
+	for d := 0; d < 2; d++ {
+		for _, f := range append([]*ssa.Function{}, out...) {
+			for _, c := range calls(f) {
+				if sc := c.Common().StaticCallee(); sc != nil && sc.Pkg == fn.Pkg && !seen[sc] && len(sc.Blocks) > 0 && sc.Object() != nil && !sc.Object().Exported() {
+					seen[sc] = true
+					out = append(out, sc)
+				}
+			}
+		}
+	}
+	return out
+}
+
 func rulesC05(p *Prog, r *Report) {
 	r.Explanation = "Thin claim. Decides only structural necessary conditions of 'matching conserves coins and respects limits': (R05.1) in amm.FillOrder the price-derived quote amount a buyer pays is rounded UP and the one a seller receives is rounded DOWN (so buyers never pay less than sellers receive and the dust is non-negative); (R05.2) the over-fill guard amt <= MatchableAmount precedes every mutation of the order; (R05.3) remaining-amount accumulators in the distribution loops decrease from themselves, not from the loop-invariant total (else later groups are handed more than is left); (R05.4) an order is kept as matched in the pro-rata distribution only if it is a buy or its share is worth a positive quote amount (a matched order receives something); (R05.5) in ApplyMatchResult the coins moved for an order are built from that order's paid/received amounts and the dust sent is the quoteCoinDiff returned by matching. Conservation over arbitrary books, the price search and pro-rata remainders are NOT decided."
 	r.Assumptions = []string{"sdk math rounding primitives have their documented direction"}
@@ -178,7 +256,11 @@ func rulesC05(p *Prog, r *Report) {
 
 	// R05.1 ------------------------------------------------------------------------
 	r.Rule("R05.1", "FillOrder: buyer's quote payment rounded UP, seller's quote receipt rounded DOWN", 2)
-	for _, c := range calls(fill) {
+	var fillCalls []ssa.CallInstruction
+	for _, f := range p.withSamePkgHelpers(fill) {
+		fillCalls = append(fillCalls, calls(f)...)
+	}
+	for _, c := range fillCalls {
 		call, ok := c.(*ssa.Call)
 		if !ok {
 			continue
@@ -203,7 +285,7 @@ func rulesC05(p *Prog, r *Report) {
 			arg = x
 		}
 		n := 0
-		for _, alt := range phiAlternatives(arg) {
+		for _, alt := range p.valueAlts(arg) {
 			if !p.passesCall(alt, "MulInt") {
 				continue // the base-coin amount itself: exact
 			}
@@ -238,14 +320,18 @@ func rulesC05(p *Prog, r *Report) {
 			return ok && calleeShortName(&c.Call) == "MatchableAmount"
 		}
 		g := p.cmpGuard("amt <= MatchableAmount", isAmt, isMatchable, RLE)
-		for _, c := range calls(fill) {
+		for _, c := range fillCalls {
 			call, ok := c.(*ssa.Call)
 			if !ok || !call.Call.IsInvoke() || !strings.HasPrefix(call.Call.Method.Name(), "Set") {
 				continue
 			}
 			r.Instance("R05.2")
 			construct := fname(fill) + " " + call.Call.Method.Name()
-			if ok, w := p.GuardedSite(g, call); ok {
+			guarded, w := p.GuardedSite(g, call)
+			if call.Parent() != fill {
+				guarded, w = p.GuardedUp(g, call) // the setters sit in a helper FillOrder calls behind its guard
+			}
+			if ok, w := guarded, w; ok {
 				r.OK("R05.2", construct, "mutation only behind the over-fill guard", p.instrPos(call))
 			} else {
 				r.Fail("R05.2", construct, "an order can be filled beyond its matchable amount: the mutation is reachable without amt <= MatchableAmount", p.instrPos(call), w)
@@ -576,9 +662,27 @@ func rulesC05(p *Prog, r *Report) {
 					continue
 				}
 				if ifi, ok := b.Instrs[len(b.Instrs)-1].(*ssa.If); ok {
-					if c, ok := ifi.Cond.(*ssa.Call); ok && calleeShortName(&c.Call) == "IsZero" && len(c.Call.Args) == 1 &&
-						(p.passesCall(c.Call.Args[0], "MulInt") || p.passesCall(c.Call.Args[0], "Mul")) {
+					isDust := func(v ssa.Value) bool {
+						c, ok := v.(*ssa.Call)
+						return ok && calleeShortName(&c.Call) == "IsZero" && len(c.Call.Args) == 1 &&
+							(p.passesCall(c.Call.Args[0], "MulInt") || p.passesCall(c.Call.Args[0], "Mul"))
+					}
+					if isDust(ifi.Cond) {
 						cut[b] = true
+					} else if c, ok := ifi.Cond.(*ssa.Call); ok {
+						// a predicate helper of the same package: `if isDustAmount(amt, price)`
+						if sc := c.Call.StaticCallee(); sc != nil && sc.Pkg == fn.Pkg && len(sc.Blocks) > 0 {
+							all, n := true, 0
+							for _, rt := range returns(sc) {
+								if len(rt.Results) != 1 || !isDust(rt.Results[0]) {
+									all = false
+								}
+								n++
+							}
+							if all && n > 0 {
+								cut[b] = true
+							}
+						}
 					}
 				}
 				// a direction-specific helper of the same package that applies the test itself
